@@ -11,7 +11,9 @@
 (* capacity (RingBuffer's wrap-around copy is not modelled), and the credit counters are plain fields      *)
 (* updated exactly as the code updates them (wrapping in release, overflow panic in debug).                *)
 (* A packet handed to the tx queue is an output event (header, payload); the tx virtqueue itself          *)
-(* (add_notify_wait_pop) is the business of C03/C05 and is assumed to accept every packet.                 *)
+(* (add_notify_wait_pop) is the business of C03/C05. cm_step assumes it accepts every packet; cm_step_tx    *)
+(* takes the outcome of the transmission (Ok / add failed / pop_used failed) as an input and follows the    *)
+(* `?` of every call site.                                                                                  *)
 (* The rx side is layered on the OwningQueue model (Model/Owning.v): vsock_rx_poll below.                  *)
 From VD Require Import Base.Words Model.Queue Model.Owning.
 
@@ -444,6 +446,218 @@ Fixpoint cm_run (md : mode) (m : cm) (ops : list cop) : cm * list (outcome rval 
   | o :: rest =>
       let '(m1, r, tx) := cm_step md m o in
       let '(m2, outs) := cm_run md m1 rest in
+      (m2, (r, tx) :: outs)
+  end.
+
+(* ---------- transmissions that FAIL ---------- *)
+(* send_packet_to_tx_queue = VirtQueue::add_notify_wait_pop on the tx queue: `add(..)?` (QueueFull: nothing has been
+   published, the device sees nothing), notify, wait for a used element, `pop_used(token, ..)` (WrongToken: the chain
+   was published and the device has consumed it, but it completed another id; the chain's descriptors stay
+   allocated and the used element stays unconsumed, which is the tx queue's business, C03/C05). The outcome of a
+   transmission is decided by the environment (the device and the fill level of the queue) and is an INPUT here.   *)
+Inductive txres :=
+| TxOk
+| TxAddFail (e : N)      (* `add` failed: nothing published *)
+| TxPopFail (e : N).     (* published and consumed by the device, `pop_used` failed *)
+(* `if buffer.is_empty() { one buffer } else { two buffers }`: a header-only packet needs one descriptor, a packet
+   with a payload two (one with indirect descriptors), so the two shapes can meet different outcomes: the input
+   gives the outcome for either shape *)
+Definition txin : Type := txres * txres.
+Definition tx_all_ok : txin := (TxOk, TxOk).
+Definition tx_pick (ti : txin) (payload : list N) : txres := if lenN payload =? 0 then fst ti else snd ti.
+Definition tx_err (t : txres) : option N := match t with TxOk => None | TxAddFail e => Some e | TxPopFail e => Some e end.
+(* what the device gets to see of the packet *)
+Definition tx_seen (t : txres) (p : pkt) : list pkt := match t with TxAddFail _ => [] | _ => [p] end.
+(* send_packet_to_tx_queue(p): Some e = Err(e) *)
+Definition tx_try (ti : txin) (p : pkt) : option N * list pkt :=
+  let t := tx_pick ti (snd p) in (tx_err t, tx_seen t p).
+
+(* The operations again, with the `?` of every transmission written out: what has ALREADY been changed when the
+   error is returned stays changed. With tx_all_ok these are the functions above (Proofs: cm_step_tx_ok). *)
+(* connect: the Connection is a local until `self.driver.connect(..)?` has succeeded *)
+Definition cm_connect_tx (ti : txin) (m : cm) (dest : vaddr) (sp : N) : result :=
+  if existsb (get_pred dest sp) (m_conns m) then (m, Err (serr SE_ConnectionExists 0), [])
+  else
+    let c := conn_new dest sp (m_cap m) in
+    match tx_try ti (new_header (cn_info c) (m_cid m) VOP_REQUEST 0 0, []) with
+    | (Some e, seen) => (m, Err e, seen)
+    | (None, seen) => (set_conns m (m_conns m ++ [c]), Ok VUnit, seen)
+    end.
+
+(* VirtIOSocket::send: `connection_info.tx_cnt = tx_cnt.wrapping_add(len)` comes BEFORE send_packet_to_tx_queue;
+   check_peer_buffer_is_sufficient: `self.request_credit(connection_info)?` comes before has_pending_credit_request = true *)
+Definition cm_send_tx (md : mode) (ti : txin) (m : cm) (dest : vaddr) (sp : N) (data : list N) : result :=
+  match get_connection (m_conns m) dest sp with
+  | None => (m, NotConnected, [])
+  | Some (i, c) =>
+      if cn_shut c then (m, Err (serr SE_PeerSocketShutdown 0), [])
+      else
+        let cr := ci_cr (cn_info c) in
+        match credit_peer_free md cr with
+        | None => (m, Panic, [])
+        | Some pf =>
+            if lenN data <=? pf then
+              let len := w32 (lenN data) in
+              let h := new_header (cn_info c) (m_cid m) VOP_RW len 0 in
+              match credit_add_tx md cr len with
+              | None => (m, Panic, [])
+              | Some cr' =>
+                  let m' := set_conns m (upd (m_conns m) i (set_cr c cr')) in
+                  match tx_try ti (h, data) with
+                  | (Some e, seen) => (m', Err e, seen)
+                  | (None, seen) => (m', Ok VUnit, seen)
+                  end
+              end
+            else if cr_pending cr then (m, Err (serr SE_InsufficientBufferSpaceInPeer 0), [])
+            else
+              match tx_try ti (new_header (cn_info c) (m_cid m) VOP_CREDIT_REQUEST 0 0, []) with
+              | (Some e, seen) => (m, Err e, seen)
+              | (None, seen) => (set_conns m (upd (m_conns m) i (set_cr c (credit_set_pending cr))),
+                                 Err (serr SE_InsufficientBufferSpaceInPeer 0), seen)
+              end
+        end
+  end.
+
+(* recv: drain and done_forwarding have happened when `self.driver.force_close(..)?` fails; the bytes copied into the
+   caller's buffer are not reported (the call returns the error) and the connection is not removed *)
+Definition cm_recv_tx (md : mode) (ti : txin) (m : cm) (peer : vaddr) (sp : N) (n : N) : result :=
+  match get_connection (m_conns m) peer sp with
+  | None => (m, NotConnected, [])
+  | Some (i, c) =>
+      let k := cntN n (cn_buf c) in
+      let out := firstn k (cn_buf c) in
+      let c1 := set_buf c (skipn k (cn_buf c)) in
+      match credit_done_forwarding md (ci_cr (cn_info c1)) (lenN out) with
+      | None => (set_conns m (upd (m_conns m) i c1), Panic, [])
+      | Some cr' =>
+          let c2 := set_cr c1 cr' in
+          let conns2 := upd (m_conns m) i c2 in
+          if cn_shut c2 && (lenN (cn_buf c2) =? 0) then
+            match tx_try ti (new_header (cn_info c2) (m_cid m) VOP_RST 0 0, []) with
+            | (Some e, seen) => (set_conns m conns2, Err e, seen)
+            | (None, seen) => (set_conns m (swap_remove conns2 i), Ok (VBytes out), seen)
+            end
+          else (set_conns m conns2, Ok (VBytes out), [])
+      end
+  end.
+
+Definition cm_update_credit_tx (ti : txin) (m : cm) (peer : vaddr) (sp : N) : result :=
+  match get_connection (m_conns m) peer sp with
+  | None => (m, NotConnected, [])
+  | Some (_, c) =>
+      if cn_shut c then (m, Err (serr SE_PeerSocketShutdown 0), [])
+      else
+        match tx_try ti (new_header (cn_info c) (m_cid m) VOP_CREDIT_UPDATE 0 0, []) with
+        | (Some e, seen) => (m, Err e, seen)
+        | (None, seen) => (m, Ok VUnit, seen)
+        end
+  end.
+
+Definition cm_shutdown_tx (ti : txin) (m : cm) (dest : vaddr) (sp : N) : result :=
+  match get_connection (m_conns m) dest sp with
+  | None => (m, NotConnected, [])
+  | Some (_, c) =>
+      match tx_try ti (new_header (cn_info c) (m_cid m) VOP_SHUTDOWN 0 3, []) with
+      | (Some e, seen) => (m, Err e, seen)
+      | (None, seen) => (m, Ok VUnit, seen)
+      end
+  end.
+
+(* force_close: `self.driver.force_close(..)?` comes before swap_remove *)
+Definition cm_force_close_tx (ti : txin) (m : cm) (dest : vaddr) (sp : N) : result :=
+  match get_connection (m_conns m) dest sp with
+  | None => (m, NotConnected, [])
+  | Some (i, c) =>
+      match tx_try ti (new_header (cn_info c) (m_cid m) VOP_RST 0 0, []) with
+      | (Some e, seen) => (m, Err e, seen)
+      | (None, seen) => (set_conns m (swap_remove (m_conns m) i), Ok VUnit, seen)
+      end
+  end.
+
+(* the part of poll after the driver returned Some(event): the closure (cm_handler) has already pushed the connection
+   of a new request and recorded the peer's credit; every reply is sent with `?` BEFORE the transition it belongs to
+   (established = true, swap_remove), so a reply that cannot be sent leaves the table as the closure left it *)
+Definition cm_after_tx (ti : txin) (m : cm) (ev : event) : result :=
+  match get_connection_for_event (m_conns m) ev (m_cid m) with
+  | None => (m, Panic, [])
+  | Some (i, c) =>
+      match ev_type ev with
+      | EtRequest =>
+          if memN (a_port (ev_dst ev)) (m_listen m) then
+            match tx_try ti (new_header (cn_info c) (m_cid m) VOP_RESPONSE 0 0, []) with
+            | (Some e, seen) => (m, Err e, seen)
+            | (None, seen) => (set_conns m (upd (m_conns m) i (set_est c)), Ok (VEvent (Some ev)), seen)
+            end
+          else
+            match tx_try ti (new_header (cn_info c) (m_cid m) VOP_RST 0 0, []) with
+            | (Some e, seen) => (m, Err e, seen)
+            | (None, seen) => (set_conns m (swap_remove (m_conns m) i), Ok (VEvent None), seen)
+            end
+      | EtConnected => (set_conns m (upd (m_conns m) i (set_est c)), Ok (VEvent (Some ev)), [])
+      | EtDisconnected shutdown =>
+          if lenN (cn_buf c) =? 0 then
+            if shutdown then
+              match tx_try ti (new_header (cn_info c) (m_cid m) VOP_RST 0 0, []) with
+              | (Some e, seen) => (m, Err e, seen)
+              | (None, seen) => (set_conns m (swap_remove (m_conns m) i), Ok (VEvent (Some ev)), seen)
+              end
+            else (set_conns m (swap_remove (m_conns m) i), Ok (VEvent (Some ev)), [])
+          else (set_conns m (upd (m_conns m) i (set_shut c)), Ok (VEvent (Some ev)), [])
+      | EtReceived _ => (m, Ok (VEvent (Some ev)), [])
+      | EtCreditRequest =>
+          match tx_try ti (new_header (cn_info c) (m_cid m) VOP_CREDIT_UPDATE 0 0, []) with
+          | (Some e, seen) => (m, Err e, seen)
+          | (None, seen) => (m, Ok (VEvent None), seen)
+          end
+      | EtCreditUpdate => (m, Ok (VEvent (Some ev)), [])
+      end
+  end.
+
+Definition cm_rx_tx (ti : txin) (m : cm) (buffer : list N) : result :=
+  match read_header_and_body buffer with
+  | inr e => (m, Err e, [])
+  | inl (h, body) =>
+      match event_from_header h with
+      | inr e => (m, Err e, [])
+      | inl ev =>
+          let '(m1, r) := cm_handler m ev body in
+          match r with
+          | Ok (Some ev') => cm_after_tx ti m1 ev'
+          | Ok None => (m1, Ok (VEvent None), [])
+          | Err e => (m1, Err e, [])
+          | Panic => (m1, Panic, [])
+          | UB => (m1, UB, [])
+          end
+      end
+  end.
+
+Definition cm_poll_tx (ti : txin) (m : cm) (rx : option (N * list N)) : result :=
+  match rx with
+  | None => (m, Ok (VEvent None), [])
+  | Some (ulen, bytes) =>
+      if m_rxsz m <? ulen then (m, Err EIoError, [])
+      else cm_rx_tx ti m (firstn (cntN ulen bytes) bytes)
+  end.
+
+Definition cm_step_tx (md : mode) (m : cm) (o : cop) (ti : txin) : result :=
+  match o with
+  | OpConnect peer lp => cm_connect_tx ti m peer lp
+  | OpSend peer lp data => cm_send_tx md ti m peer lp data
+  | OpRecv peer lp n => cm_recv_tx md ti m peer lp n
+  | OpUpdateCredit peer lp => cm_update_credit_tx ti m peer lp
+  | OpShutdown peer lp => cm_shutdown_tx ti m peer lp
+  | OpForceClose peer lp => cm_force_close_tx ti m peer lp
+  | OpPoll rx => cm_poll_tx ti m rx
+  | _ => cm_step md m o          (* no transmission in listen / unlisten / the queries *)
+  end.
+
+(* a history in which every operation comes with the fate of the transmission it may make *)
+Fixpoint cm_run_tx (md : mode) (m : cm) (ops : list (cop * txin)) : cm * list (outcome rval * list pkt) :=
+  match ops with
+  | [] => (m, [])
+  | (o, ti) :: rest =>
+      let '(m1, r, tx) := cm_step_tx md m o ti in
+      let '(m2, outs) := cm_run_tx md m1 rest in
       (m2, (r, tx) :: outs)
   end.
 
